@@ -212,6 +212,33 @@ def main():
             raise ValueError("FormatterToText::characters no longer tests chars[i] > m_maxCharacter")
         text_reports = "canTranscodeTo(" in ftt_chars and "UnrepresentableCharacterException(" in ftt_chars
         raw_consumers, raw_setters, raw_marker = raw_flag_facts()
+        # FormatterToHTML::cdata: the HTML output method has no CDATA sections
+        fth = strip_comments(open(os.path.join(XMLS, "FormatterToHTML.cpp"), encoding="utf-8", errors="replace").read())
+        hc = [norm(b) for c_, n_, b in cpp_functions(fth) if (c_, n_) == ("FormatterToHTML", "cdata")]
+        if len(hc) != 1:
+            raise ValueError("FormatterToHTML::cdata not found")
+        if "FormatterToXML::cdata(" in hc[0] and "m_isScriptOrStyleElem" in hc[0]:
+            html_cdata_is_text = False
+        elif "characters(" in hc[0] and "FormatterToXML::cdata(" not in hc[0] and "m_isScriptOrStyleElem" not in hc[0]:
+            html_cdata_is_text = True
+        else:
+            raise ValueError("FormatterToHTML::cdata has neither the repaired nor the unrepaired shape the check knows")
+        # XSLTEngineImpl entry points that take (buffer, start, length)
+        eng = strip_comments(open(os.path.join(common.REPO, "src/xalanc/XSLT/XSLTEngineImpl.cpp"), encoding="utf-8", errors="replace").read())
+        eng_fns = [(n_, norm(b)) for c_, n_, b in cpp_functions(eng) if c_ == "XSLTEngineImpl"]
+
+        def uses_start(fn):
+            bodies = [b for n_, b in eng_fns if n_ == fn and ("->%s(ch" % fn) in b]
+            if len(bodies) != 1:
+                raise ValueError("XSLTEngineImpl::%s(ch, start, length) not found" % fn)
+            if ("->%s(ch+start,length)" % fn) in bodies[0]:
+                return True
+            if ("->%s(ch,length)" % fn) in bodies[0]:
+                return False
+            raise ValueError("XSLTEngineImpl::%s(ch, start, length) has an unknown shape" % fn)
+        eng_raw_start = uses_start("charactersRaw")
+        eng_cdata_start = uses_start("cdata")
+        eng_chars_start = uses_start("characters")
         if "m_indentHandler" not in src:
             raise ValueError("FormatterToXMLUnicode.hpp no longer has an m_indentHandler member")
         cps = [(f, calls_of(body_of(src, f))) for f in FNS]
@@ -261,7 +288,18 @@ def main():
     out.append("/-- FormatterListener::s_piTarget / s_piData -/")
     out.append("def rawMarkerTargetSrc : List Nat := %s" % raw_marker[0])
     out.append("def rawMarkerDataSrc : List Nat := %s" % raw_marker[1])
+    out.append("/-- FormatterToHTML::cdata writes its characters as text (escaped, raw only inside script/style) -/")
+    out.append("def htmlCdataIsText : Bool := %s" % str(html_cdata_is_text).lower())
+    out.append("/-- XSLTEngineImpl::charactersRaw / cdata / characters (ch, start, length) pass ch + start to the listener -/")
+    out.append("def engineRawUsesStart : Bool := %s" % str(eng_raw_start).lower())
+    out.append("def engineCdataUsesStart : Bool := %s" % str(eng_cdata_start).lower())
+    out.append("def engineCharactersUsesStart : Bool := %s" % str(eng_chars_start).lower())
     out.append("end XalanModel.Generated.C08")
+    import json as _json
+    os.makedirs(common.CACHE, exist_ok=True)
+    _json.dump({"htmlCdataIsText": html_cdata_is_text, "engineRawUsesStart": eng_raw_start,
+                "engineCdataUsesStart": eng_cdata_start, "engineCharactersUsesStart": eng_chars_start},
+               open(os.path.join(common.CACHE, "c08_facts.json"), "w"))
     txt = "\n".join(out) + "\n"
     os.makedirs(common.GEN, exist_ok=True)
     p = os.path.join(common.GEN, "C08_CallPoints.lean")
